@@ -46,15 +46,19 @@ theorem no_lost_wakeup_progress (g0 : G) (h0 : Initial g0) (sched : List Tid) (i
   waiter_progress _ i (inv_run _ sched (inv_initial g0 h0)).toInvCore hf hr
 
 /-- (no lost wake-up, fairness form) After the exiter has finished, every waiter that is scheduled
-three more times — whatever else runs in between — and is not abandoned has returned. -/
+four more times (create `Notified`, read the status, first poll, one more poll) — whatever else runs
+in between — and is not abandoned has returned. In particular a waiter that read a status other
+than `Stopped` and has not polled its `Notified` yet (`WPc.checked`: the window between
+`get_status()` and `notified.await`) when the exiter finishes still returns: its snapshot of the
+`notify_waiters` generation is older than the generation its first poll sees. -/
 theorem no_lost_wakeup (g0 : G) (h0 : Initial g0) (sched more : List Tid) (i : Nat)
     (hi : i < g0.waiters.length) (hf : (run g0 sched).exiter.finished = true)
     (ha : isAbandoned (run g0 sched) i = false)
-    (hcount : 3 ≤ more.count (.w i)) (hna : Tid.abandon i ∉ more) :
+    (hcount : 4 ≤ more.count (.w i)) (hna : Tid.abandon i ∉ more) :
     isReturned (run (run g0 sched) more) i = true := by
   have I := inv_run _ sched (inv_initial g0 h0)
   refine returns_when_scheduled _ i more I hf (by rw [length_run]; exact hi) ha ?_ hna
-  have : remaining (run g0 sched) i ≤ 3 := by
+  have : remaining (run g0 sched) i ≤ 4 := by
     unfold remaining
     split
     · rename_i pc _; cases pc <;> simp [WPc.rank]
@@ -360,7 +364,15 @@ def exampleSched : List Tid :=
 example : (run (init true [] [[1, 2]] 3) exampleSched).waiters.map (·.pc)
     = [.returned true, .returned true, .returned true] := by decide
 example : (run (init true [] [[1, 2]] 3) exampleSched).exiter.finished = true := by decide
-example : (run (init true [] [[1, 2]] 3) [.w 0, .w 0]).waiters.map (·.pc) = [.registered, .start, .start] := by
+example : (run (init true [] [[1, 2]] 3) [.w 0, .w 0, .w 0]).waiters.map (·.pc) = [.registered, .start, .start] := by
+  decide
+/-- the window between `get_status()` and the first poll of `Notified`: waiter 0 reads `Running`
+(`checked`), the whole exit including `notify_waiters` and `notify_one` runs, then the first poll:
+it completes because the generation moved (and leaves the permit for a later waiter) -/
+example :
+    (run (init true [] [] 2) [.w 0, .w 0]).waiters.map (·.pc) = [.checked 0, .start] ∧
+    let g := run (init true [] [] 2) ([.w 0, .w 0] ++ List.replicate 17 .e ++ [.w 0])
+    g.waiters.map (·.pc) = [.returned true, .start] ∧ g.sh.permit = true ∧ g.exiter.finished = true := by
   decide
 /-- a timed-out waiter -/
 example : (run (init false [6] [] 2) ([.w 0, .w 0, .abandon 0] ++ List.replicate 20 .e ++ [.w 1, .w 1])).waiters.map (·.pc)
